@@ -202,6 +202,8 @@ class Contract:
                     self.trusted_reason = c.args[0].value if c.args else ""
                 elif f == "use_lemma":
                     self.uses.extend(x.value for x in c.args)
+                elif f == "abstract_regex":
+                    self.abstract_regex = [x.value for x in c.args]
                 elif f == "no_native":
                     self.no_native = c.args[0].value if c.args else "no native stand-in"
                 elif f == "generator":
@@ -388,8 +390,14 @@ class SpecFunction:
             isinstance(s, ast.Expr) and isinstance(s.value, ast.Call)
             and getattr(s.value.func, "id", "") == "uninterpreted" for s in node.body
         )
-        # non-recursive specs are macros: expanded at each use (so they may contain quantifiers)
-        self.macro = (not self.uninterpreted
+        # non-recursive specs are macros: expanded at each use (so they may contain quantifiers);
+        # `inline()` in the body asks for expansion explicitly
+        want_inline = any(isinstance(s_, ast.Expr) and isinstance(s_.value, ast.Call)
+                          and getattr(s_.value.func, "id", "") == "inline" for s_ in node.body)
+        if want_inline:
+            node.body = [s_ for s_ in node.body if not (isinstance(s_, ast.Expr) and isinstance(s_.value, ast.Call)
+                                                         and getattr(s_.value.func, "id", "") == "inline")]
+        self.macro = want_inline or (not self.uninterpreted
                       and not any(isinstance(n, ast.Call) and getattr(n.func, "id", "") == name for n in ast.walk(node))
                       and any(isinstance(n, ast.Call) and getattr(n.func, "id", "") in ("exists", "forall", "forall_str")
                               for n in ast.walk(node)))
@@ -721,6 +729,11 @@ def _cf_in_re(eng, st, pos, kw):
     if isinstance(s, UnionV):
         cand = [a for _, a in s.alts if isinstance(a, StrV)]
         s = cand[0]
+    if "." in n:
+        mod, _, attr = n.rpartition(".")
+        pat = getattr(extract.import_module(mod), attr)
+        if pat.pattern in getattr(eng, "abstract_patterns", ()):
+            return [(st, BoolV(bm.abstract_match(pat.pattern, how)(s.t)))]
     return [(st, BoolV(z3.InRe(s.t, named_language(n, how))))]
 
 
@@ -900,6 +913,10 @@ class Verifier(Engine):
         self.contract = c
         self.loop_ordinals = ex.loop_ordinals
         self.line0 = ex.lineno
+        self.abstract_patterns = set()
+        for dotted in getattr(c, "abstract_regex", []):
+            modn, _, attr = dotted.rpartition(".")
+            self.abstract_patterns.add(getattr(extract.import_module(modn), attr).pattern)
         self.var_kinds = dict(c.local_kinds)
         for d in ex.decorators:
             base = d.split("(")[0].split(".")[-1]
